@@ -97,6 +97,10 @@ fn mutation_text(block: &[FuncS], form: usize) -> String {
     let mut d = TypeS::new("D");
     d.vft = Some(VftS { size: None, funcs: block.to_vec() });
     d.fields = vec![FieldS::new("base", MTy::user(first)).based(), FieldS::new("y", MTy::b("u8").cptr())];
+    if form == 3 {
+        // an ordinary field declared before the base: it is still the first #[base] field
+        d.fields.insert(0, FieldS::new("lead", MTy::b("u8").cptr()));
+    }
     if form == 2 {
         // a second base in front of nothing: the first base is still the one with the table
         d.fields.insert(1, FieldS::new("other", MTy::user("Plain")).based());
@@ -146,7 +150,7 @@ fn cases(tier: &str) -> Vec<Case> {
         out.push(Case::Mutation(Some(format!("short table: {what}")), text));
     }
     for (what, block) in mutations() {
-        for form in 0..3 {
+        for form in 0..4 {
             out.push(Case::Mutation(what.clone(), mutation_text(&block, form)));
         }
     }
@@ -174,7 +178,7 @@ fn appendix(m: &Model) -> String {
             s.push_str(&format!("    const _: () = assert!(core::mem::offset_of!({t}, vftable) == 0, \"@@vfptr_offset:{t}@@\");\n"));
             s.push_str(&format!("    const _: () = assert!(core::mem::size_of::<*const {t}Vftable>() == {}, \"@@vfptr_size:{t}@@\");\n", m.ps));
             // the first declared field follows the pointer directly
-            let first = if m.h.types[i].bases.is_empty() { format!("own{i}") } else { bname(0) };
+            let first = if m.h.types[i].lead { format!("lead{i}") } else if m.h.types[i].bases.is_empty() { format!("own{i}") } else { bname(0) };
             s.push_str(&format!("    const _: () = assert!(core::mem::offset_of!({t}, {first}) == {}, \"@@first_field_after_vfptr:{t}@@\");\n", m.ps));
         }
     }
@@ -189,7 +193,8 @@ fn driver(m: &Model) -> String {
             continue;
         }
         let t = tname(i);
-        s.push_str(&format!("        {{\n            let mut o: {t} = core::mem::zeroed();\n            *(core::ptr::addr_of_mut!(o) as *mut u64) = 0x5151_0000 + {i};\n            crate::rt::begin(\"{t}\");\n            crate::rt::end(o.vftable() as u64, &[]);\n        }}\n"));
+        let off = m.vptr_offset(i);
+        s.push_str(&format!("        {{\n            let mut o: {t} = core::mem::zeroed();\n            *((core::ptr::addr_of_mut!(o) as *mut u8).add({off}) as *mut u64) = 0x5151_0000 + {i};\n            crate::rt::begin(\"{t}\");\n            crate::rt::end(o.vftable() as u64, &[]);\n        }}\n"));
     }
     s.push_str("    }\n}\n");
     s
